@@ -82,6 +82,8 @@ template<> struct Des<K3> {
 
 static I numer(double rank, uint64_t n) { return (I)std::llround(rank * (double)n); }
 
+template<typename K, typename P> static std::pair<I, I> conv(const P& p) { return std::make_pair(K::dec(p.first), (I)p.second); }
+
 template<typename K> static void run_op(int op, Reg& reg, const Line& t, Out& o) {
   typedef typename K::sk_t S; typedef typename K::item_t T;
   S& s = *Sel<K>::p(reg);
@@ -105,7 +107,9 @@ template<typename K> static void run_op(int op, Reg& reg, const Line& t, Out& o)
       }
       for (auto i = s.begin(); i != s.end(); ) {
         if (w2.size() >= limit) { w2.push_back(std::make_pair((I)0, (I)-1)); break; }
-        auto p = *i++; w2.push_back(std::make_pair(K::dec(p.first), (I)p.second));
+        // the pair holds a reference into the temporary iterator i++ returns (the iterator owns copies of the buffers):
+        // it must be consumed inside the same full expression
+        w2.push_back(conv<K>(*i++));
       }
       for (const auto& p : s) {
         if (w3.size() >= limit) { w3.push_back(std::make_pair((I)0, (I)-1)); break; }
